@@ -942,6 +942,12 @@ class NumaNode(Node):
             for nd in self.numa_domains.values():
                 slot = nd.find_slot(rr)
                 if slot:
+                    # the slot lives on this node, and its `lfs` and `mem`
+                    # are taken from this node
+                    slot.node_name = self.name
+                    with self.__lock__:
+                        if self.lfs is not None: self.lfs -= slot.lfs
+                        if self.mem is not None: self.mem -= slot.mem
                     return slot
 
 # ------------------------------------------------------------------------------
